@@ -706,6 +706,10 @@ impl<B: BufRead> Reader<B> {
     #[allow(clippy::cognitive_complexity)]
     pub fn read_event(&mut self) -> Result<Event, Error> {
         loop {
+            // the arms that return an event leave the loop before the buffers are cleared below;
+            // quick-xml appends to the buffer it is given, so start every read with empty ones
+            self.buf.clear();
+            self.buf2.clear();
             #[cfg(feature = "verif-hooks")]
             crate::verif_hooks::FIBEX_XML_EVENTS.fetch_add(1, std::sync::atomic::Ordering::Relaxed);
             match self.xml_reader.read_event(&mut self.buf)? {
